@@ -3,6 +3,7 @@
 //! Writes protocol lines (see lean/Driver/Proto.lean) to stdout.
 mod common;
 mod ledger;
+mod pages;
 mod rng;
 
 use std::io::Write;
@@ -57,6 +58,25 @@ fn main() {
                     cur.clear();
                 } else if !cur.is_empty() {
                     cur.push(l.to_string());
+                }
+            }
+            if n == 0 {
+                eprintln!("no replayable case on stdin");
+                std::process::exit(2);
+            }
+        }
+        "pages" => {
+            let exh = arg_val(&args, "--exh", 4) as u32;
+            pages::run_family(seed, count, exh, &mut w);
+        }
+        "pages-replay" => {
+            let mut docs = pages::Docs::new();
+            let mut n = 0;
+            for c in common::read_cases_stdin() {
+                let mut s = String::new();
+                if pages::replay(&c, &mut docs, &mut s) {
+                    w.write_all(s.as_bytes()).unwrap();
+                    n += 1;
                 }
             }
             if n == 0 {
